@@ -172,7 +172,84 @@ def rule_canon_reduced(ctx: Ctx) -> None:
                      func="canonical_form", construct="canonical_form: elimination does not range over all rows")
 
 
+def rule_eq_returns(ctx: Ctx) -> None:
+    """cmp.fields (all returns): every `return` of Stabilizer.__eq__ is either `False` under a type / size guard or the comparison of the two
+    canonical stabilizer tableaux.  A shortcut that compares `x.data.phase` compares the 2n-long Clifford sign vector, whose first
+    half holds the *destabilizer* signs — these do not belong to the state, so equal states compare unequal."""
+    repo = ctx.repo
+    m = repo.module(SSTATE)
+    fn = repo.anchor(SSTATE, "Stabilizer.__eq__")
+    ctx.touch(m, fn)
+    other = func_params(fn)[1]
+    canon = {norm(n.targets[0]) for n in ast.walk(fn) if isinstance(n, ast.Assign) and isinstance(n.value, ast.Call) and call_attr(n.value) == "canonical_form"}
+    for r in [x for x in ast.walk(fn) if isinstance(x, ast.Return) and x.value is not None]:
+        v = r.value
+        if isinstance(v, ast.Compare) and len(v.ops) == 1 and isinstance(v.ops[0], ast.Eq) and {norm(v.left), norm(v.comparators[0])} <= canon and len(canon) >= 2:
+            ctx.ok("cmp.fields", m, r, what="Stabilizer.__eq__: canonical forms compared")
+            continue
+        if (isinstance(v, ast.Constant) and v.value is False) or (isinstance(v, ast.Name) and v.id == "NotImplemented"):
+            g = next((a for a in _anc(r) if isinstance(a, ast.If)), None)
+            t = norm(g.test) if g is not None else ""
+            if "isinstance(" in t or "n_qubits" in t or "shape" in t or "type(" in t:
+                ctx.ok("cmp.fields", m, r, what="Stabilizer.__eq__: False for another type / size")
+                continue
+        bad_half = any(isinstance(x, ast.Attribute) and x.attr in ("phase", "_phase") and norm(x.value).endswith((".data", ".tableau", "._tableau")) and
+                       not isinstance(parent(x), ast.Subscript) for x in ast.walk(v))
+        ctx.fail("cmp.fields", m, r,
+                 f"Stabilizer.__eq__ returns `{short(v, 70)}` on a path that bypasses the canonical forms"
+                 + (": it compares the whole 2n-long Clifford sign vector, i.e. also the destabilizer signs, which are not part of the state — the "
+                    "same state (|0> before and after a Z gate) compares unequal" if bad_half else ": equality must not depend on the presentation"),
+                 func="Stabilizer.__eq__", construct="Stabilizer.__eq__: return that bypasses the canonical comparison")
+
+
+def rule_counter_condition(ctx: Ctx) -> None:
+    """fid.shape (counter): inner_product counts the generators of the reduced second state that have an X/Y component *anywhere* in the
+    row (`np.any(x2[i])`); the overlap is 2^(-count/2).  Testing one entry (the diagonal) misses a generator whose X sits in a later
+    column, which is then treated as a pure-Z generator: the fidelity comes out too large and is no longer symmetric."""
+    repo = ctx.repo
+    m = repo.module(METRIC)
+    ip = repo.anchor(METRIC, "inner_product")
+    ctx.touch(m, ip)
+    incs = [a for a in ast.walk(ip) if (isinstance(a, ast.Assign) and isinstance(a.value, ast.BinOp) and isinstance(a.value.op, ast.Add)
+                                          and norm(a.value.left) == norm(a.targets[0]) and norm(a.value.right) == "1") or
+            (isinstance(a, ast.AugAssign) and isinstance(a.op, ast.Add) and norm(a.value) == "1")]
+    if len(incs) != 1:
+        raise AnalysisError("inner_product: the X-generator counter increment was not found")
+    g = next((a for a in _anc(incs[0]) if isinstance(a, ast.If)), None)
+    loop = next((a for a in _anc(incs[0]) if isinstance(a, ast.For)), None)
+    if g is None or loop is None:
+        raise AnalysisError("inner_product: counter increment is not inside `for i ...: if <row has X>`")
+    iv = norm(loop.target)
+    t = g.test
+    whole_row = False
+    for c in [x for x in ast.walk(t) if isinstance(x, ast.Call)]:
+        red = (call_attr(c) or call_name(c) or "").split(".")[-1] in ("any", "sum", "count_nonzero", "max")
+        arg = c.args[0] if c.args else (c.func.value if isinstance(c.func, ast.Attribute) else None)
+        if red and isinstance(arg, ast.Subscript) and norm(arg.slice) in (iv, f"{iv}, :") and _x_of_second(ip, arg.value):
+            whole_row = True
+    if whole_row:
+        ctx.ok("fid.shape", m, g, what="counter counts rows with an X component anywhere")
+    else:
+        ctx.fail("fid.shape", m, g,
+                 f"inner_product counts a generator of the reduced second state as X-type under `{short(t)}`, which does not look at the whole row "
+                 f"of its X matrix: a generator whose X/Y components lie off that position is treated as pure Z, the overlap exponent is too "
+                 f"small, and fidelity(|00>, |0+>) becomes 1 instead of 1/2", func="inner_product", construct="inner_product: X-type test not over the whole row")
+
+
+def _x_of_second(fn, e) -> bool:
+    """is `e` (a name) bound to the x_matrix of a tableau (any: only state 2's is consulted in that loop)"""
+    if isinstance(e, ast.Attribute) and e.attr in ("x_matrix", "stabilizer_x", "table_x"):
+        return True
+    if isinstance(e, ast.Name):
+        for a in ast.walk(fn):
+            if isinstance(a, ast.Assign) and norm(a.targets[0]) == e.id and isinstance(a.value, ast.Attribute) and a.value.attr in ("x_matrix", "stabilizer_x", "table_x"):
+                return True
+    return False
+
+
 def run(ctx: Ctx) -> None:
+    rule_eq_returns(ctx)
+    rule_counter_condition(ctx)
     rule_canon_reduced(ctx)
     tableau.rule_fresh_storage(ctx)
     from .c11 import rule_inverse_blocks
@@ -204,6 +281,8 @@ def _hoist(src: str) -> str:
 
 
 KNOCKOUTS = [
+    Knockout("counter-diagonal-only", METRIC, sub_once("        if np.any(x2_matrix[i]):", "        if x2_matrix[i, i] == 1:"), "fid.shape", "not over the whole row"),
+    Knockout("eq-phase-shortcut", SSTATE, sub_once("        tableau1 = canonical_form(self.data.to_stabilizer())", "        if np.array_equal(self.data.stabilizer, other.data.stabilizer):\n            return np.array_equal(self.data.phase, other.data.phase)\n        tableau1 = canonical_form(self.data.to_stabilizer())"), "cmp.fields", "bypasses the canonical comparison"),
     Knockout("canon-eliminate-below-only", STABF, sub_nth("            for row_m in range(n_qubits):\n                if tableau.z_matrix[row_m, j] == 1 and row_m != pivot[0]:", "            for row_m in range(pivot[0], n_qubits):\n                if tableau.z_matrix[row_m, j] == 1 and row_m != pivot[0]:", 0), "canon.reduced", "does not range over all rows"),
     Knockout("stab-phase-asarray", tableau.TABLEAU, sub_once("            self._phase = np.copy(phase).astype(int)", "            self._phase = np.asarray(phase, dtype=int)"), "own.fresh-storage", "aliases its argument"),
     Knockout("clifford-phase-iphase-shared", tableau.CTABLEAU, sub_once("        self._iphase = np.zeros(2 * self.n_qubits).astype(int)\n", "        self._iphase = self._phase\n"), "own.fresh-storage", "aliases"),
